@@ -236,6 +236,10 @@ def units(tier):
     # contracts are stated over exactly that state (no counters, no memory of earlier frames or errors)
     for q in ("read", "_do_error", "_read_bytes", "__init__", "__next__"):
         us += func_units(f"{R}.{q}", tier)
+    # ... and through a socket wrapper: what it hands out depends on the peer's bytes only, not on how earlier bytes arrived
+    # (its class invariant: buffer = received-but-undelivered bytes, partial = undecoded tail from a chunk boundary)
+    from props.common import socket_units
+    us += socket_units(tier, safety_only=True)
     return us
 
 
